@@ -1,9 +1,224 @@
 //! C05: fixtures that need the cryptographic pipelines (credentials, encrypted transfers,
-//! identity provider / revoker infos, token payloads).
+//! identity provider / revoker infos, token payloads) and the registry groups built on them.
+use crate::c05::{addr, amt, rng, sweep_cost};
 use crate::harness::*;
-use concordium_base::{transactions::Payload, updates::UpdatePayload};
+use concordium_base::{
+    aggregate_sig,
+    base::*,
+    bulletproofs::range_proof::RangeProof,
+    common::types::{CredentialIndex, KeyIndex, KeyPair, TransactionTime},
+    contracts_common::{AccountAddress, SignatureThreshold},
+    curve_arithmetic::Curve,
+    ecvrf, elgamal,
+    encrypted_transfers::{self, types::*},
+    id::{
+        account_holder::{create_credential, generate_pio, generate_pio_v1_with_rng},
+        constants::{ArCurve, AttributeKind, IpPairing},
+        identity_provider::{verify_credentials, verify_credentials_v1},
+        secret_sharing::Threshold,
+        test::{test_create_ars, test_create_id_use_data, test_create_ip_info},
+        types::*,
+    },
+    pedersen_commitment::{Commitment, CommitmentKey, Value},
+    protocol_level_tokens::{RawCbor, TokenId, TokenModuleRef, TokenOperationsPayload},
+    ps_sig,
+    transactions::{AccountAccessStructure, Memo, Payload},
+    updates::{CreatePlt, UpdatePayload},
+};
+use either::Either::{Left, Right};
+use std::collections::BTreeMap;
 
-pub fn heavy_payloads(_seed: u64) -> Vec<Payload> { vec![] }
-pub fn heavy_update_payloads(_seed: u64) -> Vec<UpdatePayload> { vec![] }
-pub fn credentials(_ctx: &mut Ctx) {}
-pub fn crypto(_ctx: &mut Ctx) {}
+type Cdi = CredentialDeploymentInfo<IpPairing, ArCurve, AttributeKind>;
+
+/// everything in this file decodes group elements (subgroup checks): cost class 25
+macro_rules! ent {
+    ($t:expr, $ty:ty, $vals:expr) => {{
+        let vals: Vec<$ty> = $vals;
+        $t.add(move |ctx: &mut Ctx| sweep_cost::<$ty>(ctx, stringify!($ty), vals, 25))
+    }};
+}
+
+pub struct IdFix {
+    pub global:  GlobalContext<ArCurve>,
+    pub ip:      IpData<IpPairing>,
+    pub ars:     BTreeMap<ArIdentity, ArInfo<ArCurve>>,
+    pub pio:     PreIdentityObject<IpPairing, ArCurve>,
+    pub pio_v1:  PreIdentityObjectV1<IpPairing, ArCurve>,
+    pub initial: InitialCredentialDeploymentInfo<ArCurve, AttributeKind>,
+    pub creds:   Vec<Cdi>,
+}
+
+fn ym(y: u16, m: u8) -> YearMonth { YearMonth::new(y, m).unwrap() }
+
+fn cred_data(seed: u64, nkeys: u8, threshold: u8) -> CredentialData {
+    let mut keys = BTreeMap::new();
+    for k in 0..nkeys {
+        keys.insert(KeyIndex(k * 7), KeyPair::generate(&mut rng(seed, 8100 + k as u64)));
+    }
+    CredentialData { keys, threshold: SignatureThreshold::try_from(threshold).unwrap() }
+}
+
+/// One identity with two revokers, and credentials: (new account, no revealed attribute,
+/// one key), (existing account, two revealed attributes, two keys).
+pub fn id_fix(seed: u64) -> IdFix {
+    let global = GlobalContext::<ArCurve>::generate_size("mc-codec".into(), 256);
+    let mut r = rng(seed, 8000);
+    let n = 2u8;
+    let ip = test_create_ip_info(&mut r, n, 8);
+    let (ars, _) = test_create_ars(&global.on_chain_commitment_key.g, n, &mut r);
+    let id_use = test_create_id_use_data(&mut r);
+    let ctx = IpContext::new(&ip.public_ip_info, &ars, &global);
+    let threshold = Threshold::try_from(2u8).unwrap();
+    let mut alist = BTreeMap::new();
+    alist.insert(AttributeTag(0), AttributeKind::try_new("a".into()).unwrap());
+    alist.insert(AttributeTag(3), AttributeKind::try_new("x".repeat(31)).unwrap());
+    alist.insert(AttributeTag(8), AttributeKind::try_new(String::new()).unwrap());
+    let alist = AttributeList { valid_to: ym(2030, 5), created_at: ym(2020, 5), max_accounts: 3, alist, _phantom: Default::default() };
+    let initial_acc = InitialAccountData { keys: cred_data(seed, 2, 1).keys, threshold: SignatureThreshold::ONE };
+    let (pio, _) = generate_pio(&ctx, threshold, &id_use, &initial_acc).expect("pio");
+    let expiry = TransactionTime { seconds: 111111111111111111 };
+    let (sig, initial) = verify_credentials(&pio, ctx, &alist, expiry, &ip.ip_secret_key, &ip.ip_cdi_secret_key).expect("identity provider accepts");
+    let (pio_v1, _) = generate_pio_v1_with_rng(&ctx, threshold, &id_use, &mut r).expect("pio v1");
+    let _ = verify_credentials_v1(&pio_v1, ctx, &alist, &ip.ip_secret_key).expect("identity provider accepts v1");
+    let ido = IdentityObject { pre_identity_object: pio.clone(), alist: alist.clone(), signature: sig };
+    let policy = |tags: &[u8]| {
+        let mut pv = BTreeMap::new();
+        for t in tags {
+            pv.insert(AttributeTag(*t), alist.alist[&AttributeTag(*t)].clone());
+        }
+        Policy { valid_to: alist.valid_to, created_at: alist.created_at, policy_vec: pv, _phantom: Default::default() }
+    };
+    let c1 = create_credential(ctx, &ido, &id_use, 0, policy(&[]), &cred_data(seed + 1, 1, 1), &SystemAttributeRandomness {}, &Left(expiry)).expect("credential").0;
+    let c2 = create_credential(ctx, &ido, &id_use, 1, policy(&[0, 8]), &cred_data(seed + 2, 2, 2), &SystemAttributeRandomness {}, &Right(AccountAddress([7u8; 32]))).expect("credential").0;
+    IdFix { global, ip, ars, pio, pio_v1, initial, creds: vec![c1, c2] }
+}
+
+pub struct EncFix {
+    pub global:   GlobalContext<ArCurve>,
+    pub transfer: EncryptedAmountTransferData<ArCurve>,
+    pub to_pub:   SecToPubAmountTransferData<ArCurve>,
+    pub amount:   EncryptedAmount<ArCurve>,
+    pub pk:       elgamal::PublicKey<ArCurve>,
+}
+
+pub fn enc_fix(seed: u64) -> EncFix {
+    let global = GlobalContext::<ArCurve>::generate_size("mc-codec".into(), 256);
+    let mut r = rng(seed, 8300);
+    let sk = elgamal::SecretKey::<ArCurve>::generate(global.elgamal_generator(), &mut r);
+    let pk = elgamal::PublicKey::from(&sk);
+    let sk2 = elgamal::SecretKey::<ArCurve>::generate(global.elgamal_generator(), &mut r);
+    let pk2 = elgamal::PublicKey::from(&sk2);
+    let (amount, _) = encrypted_transfers::encrypt_amount(&global, &pk, amt(1_000_000), &mut r);
+    let input = AggregatedDecryptedAmount { agg_encrypted_amount: amount.clone(), agg_amount: amt(1_000_000), agg_index: EncryptedAmountAggIndex::from(3u64) };
+    let transfer = encrypted_transfers::make_transfer_data(&global, &pk2, &sk, &input, amt(17), &mut r).expect("transfer data");
+    let to_pub = encrypted_transfers::make_sec_to_pub_transfer_data(&global, &sk, &input, amt(999_999), &mut r).expect("sec to pub");
+    EncFix { global, transfer, to_pub, amount, pk }
+}
+
+#[allow(deprecated)]
+pub fn heavy_payloads(seed: u64) -> Vec<Payload> {
+    let idf = id_fix(seed);
+    let enc = enc_fix(seed);
+    let mut out = vec![];
+    out.push(Payload::UpdateCredentialKeys { cred_id: CredentialRegistrationID::new(idf.creds[0].values.cred_id), keys: idf.creds[1].values.cred_key_info.clone() });
+    out.push(Payload::EncryptedAmountTransfer { to: addr(5), data: Box::new(enc.transfer.clone()) });
+    out.push(Payload::EncryptedAmountTransferWithMemo { to: addr(5), memo: Memo::try_from(vec![1]).unwrap(), data: Box::new(enc.transfer.clone()) });
+    out.push(Payload::TransferToPublic { data: Box::new(enc.to_pub.clone()) });
+    let mut one = BTreeMap::new();
+    one.insert(CredentialIndex { index: 1 }, idf.creds[0].clone());
+    let mut two = one.clone();
+    two.insert(CredentialIndex { index: 255 }, idf.creds[1].clone());
+    out.push(Payload::UpdateCredentials { new_cred_infos: BTreeMap::new(), remove_cred_ids: vec![], new_threshold: concordium_base::contracts_common::AccountThreshold::try_from(1u8).unwrap() });
+    out.push(Payload::UpdateCredentials { new_cred_infos: one, remove_cred_ids: vec![CredentialRegistrationID::new(idf.creds[1].values.cred_id)], new_threshold: concordium_base::contracts_common::AccountThreshold::try_from(2u8).unwrap() });
+    out.push(Payload::UpdateCredentials {
+        new_cred_infos:  two,
+        remove_cred_ids: vec![CredentialRegistrationID::new(idf.creds[1].values.cred_id), CredentialRegistrationID::new(idf.creds[0].values.cred_id)],
+        new_threshold:   concordium_base::contracts_common::AccountThreshold::try_from(255u8).unwrap(),
+    });
+    for (id, ops) in [("T", vec![0x80u8]), ("TOKEN-id.9%", vec![0x81, 0xa1, 0x64, b'm', b'i', b'n', b't', 0xa0])] {
+        out.push(Payload::TokenUpdate { payload: TokenOperationsPayload { token_id: TokenId::try_from(id.to_string()).unwrap(), operations: RawCbor::from(ops) } });
+    }
+    out
+}
+
+pub fn heavy_update_payloads(seed: u64) -> Vec<UpdatePayload> {
+    let idf = id_fix(seed);
+    let ar = idf.ars.values().next().unwrap().clone();
+    vec![
+        UpdatePayload::AddAnonymityRevoker(Box::new(ar)),
+        UpdatePayload::AddIdentityProvider(Box::new(idf.ip.public_ip_info.clone())),
+        UpdatePayload::CreatePlt(CreatePlt { token_id: TokenId::try_from("TOK".to_string()).unwrap(), token_module: TokenModuleRef::from([5u8; 32]), decimals: 6, initialization_parameters: RawCbor::from(vec![0xa0]) }),
+        UpdatePayload::CreatePlt(CreatePlt { token_id: TokenId::try_from("T".to_string()).unwrap(), token_module: TokenModuleRef::from([0u8; 32]), decimals: 255, initialization_parameters: RawCbor::from(vec![]) }),
+    ]
+}
+
+pub fn credentials(ctx: &mut Tasks) {
+    let idf = id_fix(ctx.seed);
+    let c = &idf.creds;
+    ent!(ctx, Cdi, c.clone());
+    ent!(ctx, CredentialDeploymentValues<ArCurve, AttributeKind>, c.iter().map(|x| x.values.clone()).collect());
+    ent!(ctx, CredDeploymentProofs<IpPairing, ArCurve>, c.iter().map(|x| x.proofs.clone()).collect());
+    ent!(ctx, IdOwnershipProofs<IpPairing, ArCurve>, c.iter().map(|x| x.proofs.id_proofs.clone()).collect());
+    ent!(ctx, CredentialDeploymentCommitments<ArCurve>, c.iter().map(|x| x.proofs.id_proofs.commitments.clone()).collect());
+    ent!(ctx, AccountOwnershipProof, c.iter().map(|x| x.proofs.proof_acc_sk.clone()).collect());
+    ent!(ctx, CredentialPublicKeys, c.iter().map(|x| x.values.cred_key_info.clone()).collect());
+    ent!(ctx, VerifyKey, c[1].values.cred_key_info.keys.values().cloned().collect());
+    ent!(ctx, Policy<ArCurve, AttributeKind>, c.iter().map(|x| x.values.policy.clone()).collect());
+    ent!(ctx, ChainArData<ArCurve>, c[0].values.ar_data.values().cloned().collect());
+    ent!(ctx, YearMonth, vec![ym(1000, 1), ym(2020, 5), ym(9999, 12)]);
+    ent!(ctx, AttributeTag, vec![AttributeTag(0), AttributeTag(13), AttributeTag(253)]);
+    ent!(ctx, AttributeKind, ["", "a", &"z".repeat(31)].iter().map(|s| AttributeKind::try_new(s.to_string()).unwrap()).collect());
+    ent!(ctx, InitialCredentialDeploymentInfo<ArCurve, AttributeKind>, vec![idf.initial.clone()]);
+    let expiry = TransactionTime { seconds: 77 };
+    ent!(ctx, AccountCredentialMessage<IpPairing, ArCurve, AttributeKind>, vec![
+        AccountCredentialMessage { message_expiry: expiry, credential: AccountCredential::Normal { cdi: c[0].clone() } },
+        AccountCredentialMessage { message_expiry: expiry, credential: AccountCredential::Initial { icdi: idf.initial.clone() } },
+    ]);
+    ent!(ctx, AccountCredential<IpPairing, ArCurve, AttributeKind>, vec![AccountCredential::Normal { cdi: c[1].clone() }, AccountCredential::Initial { icdi: idf.initial.clone() }]);
+    ent!(ctx, concordium_base::transactions::BlockItem<concordium_base::transactions::EncodedPayload>, vec![concordium_base::transactions::BlockItem::CredentialDeployment(Box::new(AccountCredentialMessage { message_expiry: expiry, credential: AccountCredential::Normal { cdi: c[0].clone() } }))]);
+    ent!(ctx, IpInfo<IpPairing>, vec![idf.ip.public_ip_info.clone()]);
+    ent!(ctx, ArInfo<ArCurve>, idf.ars.values().cloned().collect());
+    ent!(ctx, Description, vec![Description { name: "".into(), url: "".into(), description: "".into() }, Description { name: "n".into(), url: "https://u".into(), description: "d".repeat(300) }]);
+    ent!(ctx, GlobalContext<ArCurve>, vec![GlobalContext::<ArCurve>::generate_size("g".into(), 2), GlobalContext::<ArCurve>::generate_size("".into(), 0)]);
+    ent!(ctx, PreIdentityObject<IpPairing, ArCurve>, vec![idf.pio.clone()]);
+    ent!(ctx, PreIdentityObjectV1<IpPairing, ArCurve>, vec![idf.pio_v1.clone()]);
+    let mut keys = BTreeMap::new();
+    keys.insert(CredentialIndex { index: 0 }, c[0].values.cred_key_info.clone());
+    let one = AccountAccessStructure { keys: keys.clone(), threshold: concordium_base::contracts_common::AccountThreshold::try_from(1u8).unwrap() };
+    keys.insert(CredentialIndex { index: 255 }, c[1].values.cred_key_info.clone());
+    let two = AccountAccessStructure { keys, threshold: concordium_base::contracts_common::AccountThreshold::try_from(2u8).unwrap() };
+    ent!(ctx, AccountAccessStructure, vec![one, two]);
+}
+
+pub fn crypto(ctx: &mut Tasks) {
+    let enc = enc_fix(ctx.seed);
+    ent!(ctx, EncryptedAmount<ArCurve>, vec![enc.amount.clone(), enc.transfer.remaining_amount.clone()]);
+    ent!(ctx, EncryptedAmountTransferData<ArCurve>, vec![enc.transfer.clone()]);
+    ent!(ctx, SecToPubAmountTransferData<ArCurve>, vec![enc.to_pub.clone()]);
+    ent!(ctx, EncryptedAmountTransferProof<ArCurve>, vec![enc.transfer.proof.clone()]);
+    ent!(ctx, SecToPubAmountTransferProof<ArCurve>, vec![enc.to_pub.proof.clone()]);
+    ent!(ctx, EncryptedAmountAggIndex, vec![EncryptedAmountAggIndex::from(0u64), EncryptedAmountAggIndex::from(u64::MAX)]);
+    ent!(ctx, elgamal::PublicKey<ArCurve>, vec![enc.pk.clone()]);
+    ent!(ctx, elgamal::Cipher<ArCurve>, enc.amount.encryptions.to_vec());
+    let mut r = rng(ctx.seed, 8400);
+    let key = CommitmentKey::<ArCurve>::generate(&mut r);
+    ent!(ctx, Commitment<ArCurve>, vec![key.commit(&Value::<ArCurve>::new(ArCurve::scalar_from_u64(7)), &mut r).0, Commitment(ArCurve::zero_point())]);
+    ent!(ctx, CommitmentKey<ArCurve>, vec![key]);
+    ent!(ctx, RangeProof<ArCurve>, vec![enc.to_pub.proof.remaining_amount_correct_encryption.clone()]);
+    // signature schemes
+    let sk = aggregate_sig::SecretKey::<IpPairing>::generate(&mut r);
+    let pk = aggregate_sig::PublicKey::from_secret(&sk);
+    ent!(ctx, aggregate_sig::PublicKey<IpPairing>, vec![pk]);
+    ent!(ctx, aggregate_sig::Signature<IpPairing>, vec![sk.sign(b"m"), aggregate_sig::Signature::<IpPairing>::empty()]);
+    let vsk = ecvrf::SecretKey::generate(&mut r);
+    let vpk = ecvrf::PublicKey::from(&vsk);
+    ent!(ctx, ecvrf::PublicKey, vec![vpk]);
+    ent!(ctx, ecvrf::Proof, vec![vsk.prove(&vpk, b"alpha")]);
+    let pssk = ps_sig::SecretKey::<IpPairing>::generate(3, &mut r);
+    let pspk = ps_sig::PublicKey::from(&pssk);
+    ent!(ctx, ps_sig::PublicKey<IpPairing>, vec![pspk, ps_sig::PublicKey::from(&ps_sig::SecretKey::<IpPairing>::generate(0, &mut r))]);
+    let kp = BakerKeyPairs::generate(&mut r);
+    ent!(ctx, BakerSignatureVerifyKey, vec![kp.signature_verify.clone()]);
+    ent!(ctx, BakerElectionVerifyKey, vec![kp.election_verify.clone()]);
+    ent!(ctx, BakerAggregationVerifyKey, vec![kp.aggregation_verify.clone()]);
+}
